@@ -767,6 +767,28 @@ def rule_MP15(rep, prog, q):
                     "concurrently with that hierarchy's other items" % c.callee, sample={"callout": c.loc})
 
 
+def rule_MP16(rep, prog, q):
+    rid = rep.rule("C03-MP16", "an async_and_wait caller whose item was run remotely unlocks exactly the levels IT locked: when the drainer of some level ran the item "
+                   "(dsc_func cleared), _dispatch_async_and_wait_f_slow stops the unlock walk at the queue recorded in dsc->dc_other - the level the drainer owns - not "
+                   "one level further down; unlocking that level too releases a serial queue in the middle of its drainer's work", floor=1)
+    fn = prog.fn("_dispatch_async_and_wait_f_slow")
+    rep.saw(fn)
+    cs = calls_named(fn, "_dispatch_sync_complete_recurse")
+    if not cs:
+        rep.unknown(rid, "_dispatch_async_and_wait_f_slow: completion walk not found")
+        return
+    for c in cs:
+        v = fn.inst(c.ops[1])
+        while v is not None and v.op == "bitcast":
+            v = fn.inst(v.ops[0])
+        ok = v is not None and v.op == "load" and "dc_other" in prog.fields(v)
+        rep.require(rid, ok, c.loc, fn.name, "remote-completion-stops-at-wrong-level",
+                    "_dispatch_async_and_wait_f_slow hands _dispatch_sync_complete_recurse a stop queue that is not dsc->dc_other itself (%s): the waiter also completes "
+                    "the level on which the drainer ran its item - a level it never locked and the drainer still holds - so the next item of that serial queue can start "
+                    "while the drainer is still running the current one" % ("a load of %s" % sorted(prog.fields(v)) if v is not None and v.op == "load" else "computed"),
+                    sample={"site": c.loc})
+
+
 def run(rep, tier="quick", srcdir=None, only=None):
     prog, units = load(UNITS, tier, srcdir)
     rep.units = units
@@ -803,6 +825,8 @@ def run(rep, tier="quick", srcdir=None, only=None):
         rule_MP14(rep, prog, q)
     if want("C03-MP15"):
         rule_MP15(rep, prog, q)
+    if want("C03-MP16"):
+        rule_MP16(rep, prog, q)
     if want("C06-AI3"):
         # an ACTIVE queue is retargeted through the barrier path that recomputes its role; the in-place path is reserved for inactive queues by the INACTIVE
         # test of _dispatch_lane_try_inactive_suspend (shared with C06)
